@@ -449,6 +449,8 @@ def _run(D, pid, cfg, tier, seed, replay, W, t0):
         total = st[tier]
         if total == 0:
             continue
+        if st.get("premid") and "mid" in cfg:
+            cfg["mid"](D, pid, cfg, W, tier, None)
         nsh = min(st.get("shards", NCPU), NCPU)
         if st["kind"] == "rapid":
             per = max(1, total // nsh)
@@ -462,6 +464,7 @@ def _run(D, pid, cfg, tier, seed, replay, W, t0):
                        "VERIF_KNOWN": os.path.join(D.VERIF, "known_findings.txt")}
                 env.update(cfg.get("env") or {})
                 env.update(st.get("env") or {})
+                env["VERIF_WORKDIR"] = W.dir
                 for k, v in os.environ.items():
                     if k.startswith("VERIF_C") or k == "VERIF_MAXRECS":
                         env[k] = v
